@@ -24,6 +24,7 @@ type Layout struct {
 	Private  any // nil = key absent; otherwise the value encoded under "private"
 	Trackers [][]string
 	Webseeds []string
+	Salt     int // varies the generated content (two torrents of one layout with different data)
 }
 
 // GenTorrent is a generated torrent with its ground truth.
@@ -49,7 +50,7 @@ func Gen(l Layout) *GenTorrent {
 		b := make([]byte, f.Len)
 		if !f.Pad {
 			for k := range b {
-				b[k] = pattern(off+k, fi)
+				b[k] = pattern(off+k, fi+l.Salt)
 			}
 		}
 		g.FileStart = append(g.FileStart, off)
